@@ -1634,8 +1634,11 @@ static void add_comment_text(const UncText &text,
 
    for ( ; idx < len; idx++)  // TODO: avoid modifying idx in loop
    {
-      // Split the comment
-      if (text[idx] == '\n')
+      // Split the comment (a CR that is not part of a CRLF is a line break, too)
+      if (  text[idx] == '\n'
+         || (  text[idx] == '\r'
+            && (  idx + 1 >= len
+               || text[idx + 1] != '\n')))
       {
          in_word = false;
          add_char('\n');
